@@ -15,7 +15,7 @@
     The comparators of the engine: C07_comparators (selected attributes equal, hcount host >= pattern). *)
 From Coq Require Import List NArith Bool.
 From SK Require Import lib.Tok lib.LGraph lib.Mono model.C07_Model
-  proof.C07_Spec proof.C07_History proof.C07_Filters proof.C07_Main proof.C07_WL proof.C07_Relabel proof.C07_Final.
+  proof.C07_Spec proof.C07_History proof.C07_Filters proof.C07_Main proof.C07_WL proof.C07_Relabel proof.C07_Final proof.C07_Extra proof.C07_Final2.
 Import ListNotations.
 
 (** the premises are satisfiable, and the instances the correspondence run evaluates ([run] = [run_from has_mono (monos_g true)])
@@ -146,3 +146,82 @@ Theorem C07_cache_consistent :
     cache_get (gi, na) (end_cache vf2b enum gs es qs []) = Some h -> h = wl1_hash na (gnth gs gi).
 Proof. exact cache_consistent. Qed.
 Print Assumptions C07_cache_consistent.
+
+(** ---------------------------------------------------------------- round 3 *)
+
+(** graph_morphism.graph_isomorphism without matchers: structure only *)
+Theorem C07_giso0_verdict :
+  forall vf2b, vf2b_contract vf2b ->
+  forall g1 g2, gwf g1 -> gwf g2 ->
+    (giso0 vf2b g1 g2 = true <-> exists f, iso_map any_attrs any_attrs g1 g2 f).
+Proof. exact giso0_spec. Qed.
+Print Assumptions C07_giso0_verdict.
+
+(** graph_morphism.find_graph_isomorphism returns a mapping (not None — possibly the EMPTY mapping for two empty graphs) exactly when
+    an isomorphism exists under its matchers (use_defaults: element / atom_map / hcount EQUAL with defaults "*", 0, 0 and order
+    equal with default 1; otherwise structure only), with or without the fast invariant check (node count, edge count, sorted
+    degree sequence), which is therefore a necessary condition *)
+Theorem C07_fgi_verdict :
+  forall vf2b, vf2b_contract vf2b ->
+  forall use_defaults fast dstar dzero done g1 g2, gwf g1 -> gwf g2 ->
+    (fgi vf2b use_defaults fast dstar dzero done g1 g2 = true <->
+     exists f, iso_map (fgi_nm use_defaults dstar dzero) (fgi_em use_defaults done) g1 g2 f).
+Proof. exact fgi_spec. Qed.
+Print Assumptions C07_fgi_verdict.
+
+Theorem C07_fgi_fast_transparent :
+  forall vf2b, vf2b_contract vf2b ->
+  forall use_defaults dstar dzero done g1 g2, gwf g1 -> gwf g2 ->
+    fgi vf2b use_defaults true dstar dzero done g1 g2 = fgi vf2b use_defaults false dstar dzero done g1 g2.
+Proof. exact fgi_fast_transparent. Qed.
+Print Assumptions C07_fgi_fast_transparent.
+
+(** the enumerator the model run uses lists every embedding once *)
+Theorem C07_enum_complete_for_run : enum_complete (monos_g true).
+Proof. exact monos_g_complete_contract. Qed.
+Print Assumptions C07_enum_complete_for_run.
+
+(** unlimited get_mappings (max_mappings=None) outside the equal-size shortcut returns EVERY embedding of the pattern, none twice
+    (premise: VF2 enumerates completely — [enum_complete], proved for the verified enumerator, monitored by comparing mapping sets) *)
+Theorem C07_embeddings_complete :
+  forall vf2b enum, enum_complete enum ->
+  forall gs e hi pi c, cache_inv gs c -> gwf (gnth gs hi) -> gwf (gnth gs pi) ->
+    e_mm e = None -> shortcut (gnth gs hi) (gnth gs pi) = false ->
+    NoDup (fst (get_mappings vf2b enum e hi (gnth gs hi) pi (gnth gs pi) c)) /\
+    (forall f, emb true (nm_eng e) (em_eng e) (gnth gs hi) (gnth gs pi) f ->
+       exists m, In m (fst (get_mappings vf2b enum e hi (gnth gs hi) pi (gnth gs pi) c)) /\
+                 forall u, In u (node_ids (gnth gs pi)) -> mfun m u = f u).
+Proof. exact embeddings_complete. Qed.
+Print Assumptions C07_embeddings_complete.
+
+(** max_mappings = k returns exactly the first k mappings of the unlimited result (k >= 1, or outside the shortcut) — any VF2 *)
+Theorem C07_max_mappings_slice :
+  forall vf2b enum gs e k hi pi c c', cache_inv gs c -> cache_inv gs c' ->
+    (shortcut (gnth gs hi) (gnth gs pi) = false \/ (1 <= N.to_nat k)%nat) ->
+    fst (get_mappings vf2b enum (set_mm e (Some k)) hi (gnth gs hi) pi (gnth gs pi) c) =
+    firstn (N.to_nat k) (fst (get_mappings vf2b enum (set_mm e None) hi (gnth gs hi) pi (gnth gs pi) c')).
+Proof. exact max_mappings_slice. Qed.
+Print Assumptions C07_max_mappings_slice.
+
+(** histories in which the caller edits graph OBJECTS in place ([run_hist], what [run_h] evaluates): without edits they are ordinary
+    histories; engines that do not use the WL filter answer every query like the cache-free functions on the CURRENT graph values
+    from any cache state (the class documents that the cache of filtering engines goes stale under in-place mutation —
+    example ex_edit_stale); an edit keeps the cache invariant iff the entries of the edited object are right for its new value *)
+Theorem C07_hist_no_edits :
+  forall vf2b enum gs0 cur es qs c,
+    run_hist vf2b enum gs0 cur es (map HQ qs) c = (run_from vf2b enum cur es qs c, end_cache vf2b enum cur es qs c).
+Proof. exact hist_no_edits. Qed.
+Print Assumptions C07_hist_no_edits.
+
+Theorem C07_edits_wl_off :
+  forall vf2b enum gs0 es hs, Forall (fun e => e_wl e = false) es ->
+  forall cur c, fst (run_hist vf2b enum gs0 cur es hs c) = hist_pure vf2b enum gs0 cur es hs.
+Proof. exact edits_wl_off. Qed.
+Print Assumptions C07_edits_wl_off.
+
+Theorem C07_edit_keeps_inv :
+  forall gs i g' c, cache_inv gs c ->
+    (forall na h, cache_get (i, na) c = Some h -> h = wl1_hash na g') -> (i < length gs)%nat ->
+    cache_inv (set_nth gs i g') c.
+Proof. exact edit_keeps_inv. Qed.
+Print Assumptions C07_edit_keeps_inv.
